@@ -146,6 +146,8 @@ def check_log_file(ctx):
 
 
 def check(ctx):
+    from . import c02 as _c02c
+    _c02c.check_gc(ctx)            # nothing is collected between a failed install and the latching of its error
     wal.check_block_tail(ctx)      # a reused log keeps the block grid
     from . import c02 as _c02
     _c02.check_env_read(ctx)      # replay sees the whole log
